@@ -18,7 +18,7 @@ ACV_CONSTS = """CONSTANTS
   PClass <- MCPClass
   DClass <- MCDClass
   GenvarsOf <- TrGenvarsOf
-  MaxCalls = 2
+  MaxCalls = 1000000
   SwallowDecodeError = FALSE
   SplitGenvar = FALSE
   LeakHandleState = FALSE
@@ -85,14 +85,18 @@ def to_trace(obs_rows):
         case_lines = []
         calls = o["calls"]
         for i, c in enumerate(calls):
-            case_lines.append({"e": "call", "entry": c["entry"], "hasChan": c["hasChan"],
-                               "pclass": o["pclass"] if c["entry"] != "validateCompiled" or len(calls) == 1 else o["pclass"],
-                               "dclass": o["dclass"] if c["entry"] != "compile" else "unknown"})
+            dclass = c.get("dclass") or o["dclass"]
+            case_lines.append({"e": "call", "entry": c["entry"], "hasChan": c["hasChan"], "pclass": o["pclass"],
+                               "dclass": dclass if c["entry"] != "compile" else "unknown"})
             for t in c["events"]:
                 case_lines.append({"e": "ev", "t": t})
             conf = c.get("conforms")
+            key = (c.get("pkey", "") + "|" + c["dkey"]) if c.get("dkey") else ""
             case_lines.append({"e": "ret", "kind": c["kind"], "closed": bool(c["closed"]),
-                               "conforms": "na" if conf is None else ("true" if conf else "false")})
+                               "conforms": "na" if conf is None else ("true" if conf else "false"),
+                               "key": key, "sha": c.get("sha", "")})
+        for vals in (o.get("genvars") or []):
+            case_lines.append({"e": "genvars", "vals": vals})
         ms = o.get("milestones") or []
         has_chan = any(c["hasChan"] for c in calls)
         case_lines.append({"e": "end", "id": o["id"], "hasMs": bool(has_chan and any(c["events"] for c in calls)),
